@@ -28,6 +28,8 @@ one-byte chunks included —, no bound on lengths):
 * `good_blockfetch` — likewise the block-fetch codec of both stacks (`array()`, `u16()`, `u64()`, `tag()`,
   `bytes()`; `Point`s; block bodies of any length `< 2^64`, i.e. messages spanning many segments), tied by
   the `bfdec`/`bfenc` ops; `reassembly_network1_blockfetch`, `reassembly_network2_blockfetch`;
+* `good_chainsync` — likewise the node-to-node chain-sync codec (header content with Byron prefix, tips,
+  points, the point list of `FindIntersect`), tied by the `csdec`/`csenc` ops;
 * `good_lenCodec` — a synthetic length-prefixed codec satisfies `Good`.
 
 What is **not** proved here: that the *other* pallas message decoders satisfy `Good` (that is C22's
@@ -473,6 +475,33 @@ theorem reassembly_network2_blockfetch (tbl : Table BFMsg) (c : UInt16) (ht : tb
       partialOf (readAll tbl (fun _ => none) segs).2 c = [] :=
   reassembly_network2 c ht good_blockfetch segs ms hD hs
 
+/-! ## a third real codec: chain-sync with header content (node-to-node, both stacks) -/
+
+/-- the chain-sync codec (`HeaderContent` with its Byron prefix, `Tip`, `Point`, the point list of
+    `FindIntersect` decoded through `Vec<T>` / `ArrayIter`) satisfies `Good` on every message that
+    pallas can send and receive (`WFCS`: integers in `u8`/`u64`, lengths below `2^64`, Byron prefix
+    present exactly for variant 0) -/
+theorem good_chainsync : Good Proofs.Codec.WFCS csDec csEnc := by
+  refine ⟨?_, ?_, ?_, rfl⟩
+  · intro m hm r
+    simp only [csDec, (Proofs.Codec.parses_chainsync m hm).1 r]
+  · intro m hm p hp hne
+    simp only [csDec, (Proofs.Codec.parses_chainsync m hm).2 p hp hne]
+  · intro m _
+    cases m <;> simp [csEnc]
+
+theorem reassembly_network1_chainsync (msgs : List CSMsg) (hD : ∀ m ∈ msgs, Proofs.Codec.WFCS m)
+    (splits : List Bytes) (hs : splits.flatten = encAll csEnc msgs) :
+    ∃ c, recvN csDec msgs.length [] splits = some (msgs, [], c) ∧ c.flatten = [] :=
+  reassembly_network1 good_chainsync msgs hD splits hs
+
+theorem reassembly_network2_chainsync (tbl : Table CSMsg) (c : UInt16) (ht : tbl c = some csDec)
+    (segs : List (UInt16 × Bytes)) (ms : List CSMsg) (hD : ∀ m ∈ ms, Proofs.Codec.WFCS m)
+    (hs : bytesOn c segs = encAll csEnc ms) :
+    msgsOn c (readAll tbl (fun _ => none) segs).1 = ms ∧
+      partialOf (readAll tbl (fun _ => none) segs).2 c = [] :=
+  reassembly_network2 c ht good_chainsync segs ms hD hs
+
 /-! ## Non-vacuity -/
 def m1 : LenMsg := ⟨[1, 2, 3], by decide⟩
 def m2 : LenMsg := ⟨[], by decide⟩
@@ -508,5 +537,13 @@ example : bfDec [0x82, 0x04, 0xd8, 0x18, 0x43, 1, 2] = .eoi ∧
 example : Proofs.Codec.WFMsg (.block (List.replicate 70000 0)) := by
   show (List.replicate 70000 (0 : UInt8)).length < 18446744073709551616
   rw [List.length_replicate]; decide
+
+example : csEnc (.rollForward ⟨6, none, [0x80]⟩ ⟨.origin, 5⟩) =
+    [0x83, 0x02, 0x82, 0x06, 0xd8, 0x18, 0x41, 0x80, 0x82, 0x80, 0x05] := by decide
+example : csDec [0x82, 0x04, 0x9f, 0x80, 0x80, 0xff, 0x00] = .ok (.findIntersect [.origin, .origin]) 6 ∧
+    csDec [0x82, 0x04, 0x9f, 0x80] = .eoi ∧ csDec [0x82, 0x04, 0x82, 0x80] = .eoi := by decide
+example : Proofs.Codec.WFCS (.rollForward ⟨0, some (1, 2), [1, 2, 3]⟩ ⟨.specific 7 [9], 1⟩) := by
+  refine ⟨⟨by decide, by decide, fun _ => ⟨1, 2, rfl, by decide, by decide⟩, fun h => absurd rfl h⟩,
+    ⟨⟨by decide, by decide⟩, by decide⟩⟩
 
 end PallasVerif.Props.C21
